@@ -428,8 +428,40 @@ public:
       O["e"] = expr(CE->getSubExpr());
       return fin(std::move(O));
     }
+    if (const auto *LE = dyn_cast<LambdaExpr>(E)) {
+      // a local function object: serialised in place, in the id space of the enclosing function, so that captured variables keep
+      // their identity; analyses inline the body at the calls of the closure
+      O["k"] = "lambda";
+      json::Array PA;
+      if (const CXXMethodDecl *Op = LE->getCallOperator()) {
+        for (const ParmVarDecl *P : Op->parameters()) {
+          json::Object PO;
+          PO["name"] = P->getNameAsString();
+          PO["id"] = localId(P);
+          PO["t"] = typeRef(P->getType());
+          PA.push_back(std::move(PO));
+        }
+        O["ret"] = typeRef(Op->getReturnType());
+      }
+      O["params"] = std::move(PA);
+      O["byref"] = LE->getCaptureDefault() == LCD_ByRef;
+      bool AllRef = true;
+      for (const LambdaCapture &C : LE->captures())
+        if (C.getCaptureKind() != LCK_ByRef && C.getCaptureKind() != LCK_This) AllRef = false;
+      O["allref"] = AllRef;
+      if (LE->getBody()) O["body"] = stmt(LE->getBody());
+      return fin(std::move(O));
+    }
     if (const auto *OC = dyn_cast<CXXOperatorCallExpr>(E)) {
       const auto *MD = dyn_cast_or_null<CXXMethodDecl>(OC->getDirectCallee());
+      if (MD && MD->getParent() && MD->getParent()->isLambda() && OC->getOperator() == OO_Call && OC->getNumArgs() >= 1) {
+        O["k"] = "lcall";
+        O["closure"] = expr(OC->getArg(0));
+        json::Array A;
+        for (unsigned I = 1; I < OC->getNumArgs(); I++) A.push_back(expr(OC->getArg(I)));
+        O["args"] = std::move(A);
+        return fin(std::move(O));
+      }
       if (MD && (MD->isCopyAssignmentOperator() || MD->isMoveAssignmentOperator()) && MD->isTrivial() && OC->getNumArgs() == 2) {
         O["k"] = "assign";
         O["op"] = "=";
